@@ -149,7 +149,8 @@ def engine_class(node, flags, is_bytes):
         st.flags &= ~re.U
     else:
         st.str = ''
-        st.flags |= re.U
+        if not st.flags & re.A:            # re.ASCII restricts case folding (and categories) to ASCII
+            st.flags |= re.U
     sub = sp.SubPattern(st, [node])
     pat = scomp.compile(sub, st.flags)
     if is_bytes:
@@ -485,12 +486,17 @@ def rx_of(p):
 
 
 _methods = None
+_variants = None
+VARIANT = 0
 
 
-def wrapper_methods():
-    """Which regex method the real non-REALPATH matcher calls on include / exclude patterns (observed with spy objects)."""
-    global _methods
-    if _methods is None:
+def method_variants():
+    """Which regex method the real non-REALPATH matcher calls on include / exclude patterns, observed with spy objects on every
+    entry point that consults compiled regexes: `_Match.match` (fnmatch / globmatch), `WcRegexp.match` (a compiled matcher) and
+    `WcRegexp.filter` (filter / globfilter).  Returns the list of distinct (include method, exclude method) pairs, the one of
+    `_Match.match` first; normally there is exactly one."""
+    global _variants
+    if _variants is None:
         from wcmatch import _wcmatch as M
 
         class Spy:
@@ -506,9 +512,29 @@ def wrapper_methods():
                         return object()
                     return f
                 raise AttributeError(name)
-        a, b = Spy(), Spy()
-        M._Match('name', (a,), (b,), False, False, False).match()
-        if len(a.used) != 1 or len(b.used) != 1:
-            raise NotEncodable(f'matcher wrapper consulted its regexes unexpectedly: {a.used} {b.used}')
-        _methods = (a.used[0], b.used[0])
-    return _methods
+        out = []
+        for entry in ('direct', 'compiled.match', 'compiled.filter'):
+            a, b = Spy(), Spy()
+            try:
+                if entry == 'direct':
+                    M._Match('name', (a,), (b,), False, False, False).match()
+                elif entry == 'compiled.match':
+                    M.WcRegexp((a,), (b,), False, False, False).match('name')
+                else:
+                    M.WcRegexp((a,), (b,), False, False, False).filter(['name'])
+            except Exception as ex:  # noqa: BLE001
+                raise NotEncodable(f'matcher wrapper ({entry}) failed on spy regexes: {ex!r}')
+            if len(a.used) != 1 or len(b.used) != 1:
+                raise NotEncodable(f'matcher wrapper ({entry}) consulted its regexes unexpectedly: {a.used} {b.used}')
+            pair = (a.used[0], b.used[0])
+            if pair not in out:
+                out.append(pair)
+        _variants = out
+    return _variants
+
+
+def wrapper_methods():
+    """The (include, exclude) regex methods of the variant under examination (props.runner repeats a property's run for every
+    further variant, so that each entry point's own reading of the regexes is decided)."""
+    v = method_variants()
+    return v[min(VARIANT, len(v) - 1)]
